@@ -1842,6 +1842,8 @@ class VariableNode(AstNode):
         if ast.params is not None:
             # 'void foo()' instead of 'void foo'
             raise RuntimeError("Arguments given to variable:", ast.gen_decl())
+        if ast.name is None:
+            raise RuntimeError("Missing name in declaration: " + decl)
         self.ast = ast
         self.name = ast.name
 
@@ -2037,6 +2039,9 @@ def clean_dictionary(ddct):
     but we want blank.
     Check the type of the fields.
     """
+    if not isinstance(ddct, dict):
+        raise RuntimeError(
+            "Expected a mapping of fields, found '{}'".format(ddct))
     for key in ["cxx_header", "namespace"]:
         if key in ddct and ddct[key] is None:
             ddct[key] = ""
@@ -2202,7 +2207,7 @@ def listify(entry, names):
 #              else:
 #                  new[key] = [ value ]
                 new[key] = value.split("\n")
-                if value[-1] == "\n":
+                if value.endswith("\n"):
                     new[key].pop()
             elif isinstance(value, list):
                 new[key] = ["" if v is None else v for v in value]
